@@ -510,6 +510,23 @@ Theorem yearless_driver_caches_off_refuted :
 Proof. exact CachesYearWalk.yearless_caches_off_witness. Qed.
 Print Assumptions yearless_driver_caches_off_refuted.
 
+(* REFUTED for the block-zero-analysis state of a STREAMED file (W5, genuine on the shipped binary; known finding
+   yearless_first_messages_keep_filler_year): the hypothesis `lr_inv bs f (s_lr st1)` of yearless_driver_complete does not
+   hold there when a line of the first message begins exactly at the end of block zero and is longer than a block -
+   stage 1 reads block 1 and the look-behind drop removes block 0 before disable_drop_data; the reverse pass ends at the
+   messages that begin in block 0 (find_line answers Done) and stage 3 dates them with the FILLER year.  Witness
+   "2z\nwxyv\n2b\n", oracle dy2, tolerance 10, mtime year 7: gz/bz2/lz4 at block size 3 emit the first message with 122
+   instead of 6122; block sizes 4 and 9, a tar member and the plain file emit 6122 (first component: the blocks stored
+   after stage 1).  Real witness: corpus/C02/yearless_leading_undated_w4.log as .gz at --blocksz 64 *)
+Theorem yearless_driver_streamed_gate_drop_refuted :
+  run_fyg (b_open KSeq 3 (lenN fyg)) 3 = ([1], Some [(Some 0, 122%Z); (Some 8, 7098%Z)]) /\
+  run_fyg (b_open KSeq 4 (lenN fyg)) 4 = ([0], Some [(Some 0, 6122%Z); (Some 8, 7098%Z)]) /\
+  run_fyg (b_open KSeq 9 (lenN fyg)) 9 = ([0], Some [(Some 0, 6122%Z); (Some 8, 7098%Z)]) /\
+  snd (run_fyg (b_open KTar 3 (lenN fyg)) 3) = Some [(Some 0, 6122%Z); (Some 8, 7098%Z)] /\
+  snd (run_fyg (b_init false) 3) = Some [(Some 0, 6122%Z); (Some 8, 7098%Z)].
+Proof. exact CachesYearStage3.yearless_streamed_gate_drop_witness. Qed.
+Print Assumptions yearless_driver_streamed_gate_drop_refuted.
+
 (* STILL NOT PROVED (kept _partial): the year-less driver
    - with --dt-after: the pass stops early (covered: yearless_walk_is_gwalk) and stage 3 meets messages the pass did not
      store, which are searched with the filler year - no statement is claimed;
